@@ -150,6 +150,24 @@ func (b *Board) IsCheckmate() bool {
 		}
 	}
 
+	// en passant capture landing on one of the blocking squares
+	if b.EnPassant != 0 {
+		epBB := BitBoard(1) << b.EnPassant
+
+		if epBB&blocked != 0 {
+			captured := attacks.PawnSinglePushMoves(epBB, b.STM.Flip())
+			pawns := attacks.PawnCaptureMoves(epBB, b.STM.Flip()) & b.Pieces[Pawn] & b.Colors[b.STM]
+
+			for ; pawns != 0; pawns &= pawns - 1 {
+				pawn := pawns & -pawns
+
+				if !b.IsAttacked(b.STM.Flip(), (occ&^(pawn|captured))|epBB, king) {
+					return false
+				}
+			}
+		}
+	}
+
 	return true
 }
 
